@@ -80,6 +80,10 @@ type c01Universe struct {
 	// PreferVXLAN biases pools towards VXLAN modes and nodes towards having a BGP IPv4 address, so
 	// that VTEPs and routes that need them coexist often ("vxlan" focus).
 	PreferVXLAN bool
+	// VTEP scenario: pool 10.0.0.0/16 is a VXLAN pool, node rhost has a BGP IPv4 address and block
+	// 10.0.1.0/29 is affine to rhost, so that a VXLAN block route via rhost and rhost's VTEP coexist
+	// and the history can then modify the VTEP.
+	VTEPScenario bool
 	// Reorder scenario: profiles p1 and p2 apply conflicting values for label ReorderKey, the slots
 	// wep/l1 and hep/lh1 list both, and policy/g1's selector usually tests that label.
 	ReorderOn                        bool
@@ -808,6 +812,12 @@ func c01GenPool(cidr string) func(t *rapid.T, u *c01Universe, label string) c01V
 		}
 		masq := rapid.Bool().Draw(t, label+".masq")
 		disabled := c01OneIn(t, label+".disabled", 6)
+		if u.VTEPScenario && strings.HasPrefix(label, "pool/10.0.0.0-16.") {
+			if mode != "vxlan" && mode != "vxlan-cross" {
+				mode = "vxlan"
+			}
+			disabled = false
+		}
 		uses := rapid.SampledFrom([][]v3.IPPoolAllowedUse{nil, {v3.IPPoolAllowedUseWorkload}, {v3.IPPoolAllowedUseWorkload, v3.IPPoolAllowedUseTunnel}}).Draw(t, label+".uses")
 		desc := fmt.Sprintf("IPPool{cidr=%s encap=%s masq=%v disabled=%v uses=%v}", cidr, mode, masq, disabled, uses)
 		return c01Ver{Desc: desc, Mk: func() any {
@@ -835,6 +845,9 @@ func c01GenPool(cidr string) func(t *rapid.T, u *c01Universe, label string) c01V
 func c01GenBlock(cidr string) func(t *rapid.T, u *c01Universe, label string) c01Ver {
 	return func(t *rapid.T, u *c01Universe, label string) c01Ver {
 		aff := rapid.SampledFrom([]string{c01Local, c01Remote, c01Remote, c01Remote2, ""}).Draw(t, label+".affinity")
+		if u.VTEPScenario && strings.HasPrefix(label, "block/10.0.1.0-29.") {
+			aff = c01Remote
+		}
 		// Up to three allocated ordinals, each owned by some node (possibly not the affine one:
 		// a borrowed IP) or with no node recorded.
 		nalloc := rapid.IntRange(0, 3).Draw(t, label+".nalloc")
@@ -901,6 +914,12 @@ func c01GenNode(name string) func(t *rapid.T, u *c01Universe, label string) c01V
 		if u.PreferVXLAN && rapid.IntRange(0, 3).Draw(t, label+".preferBGPv4") > 0 {
 			bgpForm = "bgp"
 			if v4 == "" {
+				v4 = "192.168.0.2/24"
+			}
+		}
+		if u.VTEPScenario && name == c01Remote {
+			bgpForm = "bgp"
+			if v4 == "" || v4 == "not-an-ip" {
 				v4 = "192.168.0.2/24"
 			}
 		}
